@@ -463,6 +463,8 @@ class DeclGen:
     ab = int(q < 0.15)
     fin = int(0.15 <= q < 0.25)
     cor = int(0.25 <= q < 0.3)
+    if kind == 3 and fin and FP_FINPROP not in self.known:
+      fin = 0          # @final @property is re-printed as @property @final (proposed finding; generated once listed)
     decos = []
     if r.random() < 0.1:
       decos = [ids.id(r.choice(["mydeco", "other.deco"]))] * r.choice([1, 2])
@@ -583,6 +585,7 @@ def collapse_single(t):
 FP_PROP2 = "property-decorator-duplicated"
 FP_PROPCONST = "property-method-reread-as-constant"
 FP_ALIASNONE = "alias-to-none-reread-as-constant"
+FP_FINPROP = "final-property-decorator-order"
 
 
 PROBE = "from typing import TypeVar\nT = TypeVar('T')\nclass A:\n    @property\n    def y(self) -> T: ...\n"
@@ -607,6 +610,8 @@ def unit_features(ids, u, fixed=False):
           f.add(FP_PROPCONST)
         elif not fixed:
           f.add(FP_PROP2)
+        if param and fn[4]:
+          f.add(FP_FINPROP)
   def klass(c):
     funcs(c[7], True)
     for x in c[5]:
@@ -771,8 +776,8 @@ def check_units(res, model, impl, ids, dg, n_units, hist, report, unknown_violat
       fps, unexpl = explain_diff(text, o["text2"] or "")
       t1, t2 = strip_imports(text).split("\n"), strip_imports(o["text2"] or "").split("\n")
       mine = set()
-      if FP_PROP2 in feats or FP_PROPCONST in feats or FP_ALIASNONE in feats:
-        mine = feats & {FP_PROP2, FP_PROPCONST, FP_ALIASNONE}
+      if FP_PROP2 in feats or FP_PROPCONST in feats or FP_ALIASNONE in feats or FP_FINPROP in feats:
+        mine = feats & {FP_PROP2, FP_PROPCONST, FP_ALIASNONE, FP_FINPROP}
         unexpl = []
       if unexpl or not (fps or mine):
         for cause in diff_causes(unexpl)[:2]:
